@@ -254,10 +254,9 @@ class C14:
             kw = dumps_kwargs(o)
             inc, exc = kw.pop('include', None), kw.pop('exclude', None)
             enc = kw.pop('encoding', None)
-            try:
-                cats = CAT.valid(include=inc, exclude=exc)
-            except Exception:
-                cats = None
+            # (no try/except here: this helper runs inside interrupted operations too, and a harness that swallows the injected
+            # fault would make the operation "return normally with wrong data" all by itself)
+            cats = CAT.valid(include=inc, exclude=exc)
             opt = kp.ExportOptions(**{k: v for k, v in kw.items() if k in ('spine_types', 'from_measure', 'to_measure', 'instruments', 'spine_ids')},
                                    token_categories=cats if cats is not None else None)
             if isinstance(enc, kp.Encoding):
